@@ -86,6 +86,13 @@ def _elementwise(name):
     real = getattr(_np, name)
 
     def f(x, *a, **kw):
+        out_ = kw.pop('out', None)
+        if out_ is not None or (a and isinstance(a[0], _np.ndarray)):
+            # numpy's out= argument (keyword or second positional): the result is written into it and it is returned
+            tgt = out_ if out_ is not None else a[0]
+            res = f(x)
+            tgt[...] = res
+            return tgt
         if isinstance(x, SR):
             return getattr(x, name)()
         xa = _np.asarray(x) if not isinstance(x, _np.ndarray) else x
